@@ -1,4 +1,5 @@
 import NdnModel.TlNum
+import NdnGen.C09
 /-
   Model of src/ndn/encoding/name/Component.py and src/ndn/encoding/name/Name.py.
 
@@ -22,10 +23,9 @@ def isAsciiDigit (c : Char) : Bool := 48 ≤ c.toNat && c.toNat ≤ 57
 def isAsciiLetter (c : Char) : Bool :=
   (65 ≤ c.toNat && c.toNat ≤ 90) || (97 ≤ c.toNat && c.toNat ≤ 122)
 
-/-- `ch in Component.CHARSET` : ASCII letters, digits and `- . _ ~ = %`. -/
-def inCharset (c : Char) : Bool :=
-  isAsciiLetter c || isAsciiDigit c ||
-    c == '-' || c == '.' || c == '_' || c == '~' || c == '=' || c == '%'
+/-- `ch in Component.CHARSET`: membership in the table generated from the source (`lean/NdnGen/C09.lean`; on the
+    unchanged tree: ASCII letters, digits and `- . _ ~ = %`, theorem `inCharset_eq`). -/
+def inCharset (c : Char) : Bool := Gen.C09.charset.contains c.toNat
 
 def digitVal (c : Char) : Nat := c.toNat - 48
 
@@ -134,17 +134,13 @@ def TYPE_IMPLICIT_SHA256 : Nat := 1
 def TYPE_PARAMETERS_SHA256 : Nat := 2
 def MAX_TYPE : Nat := 65535
 
-/-- `ALTERNATE_URI_TYPE` : type → shorthand -/
+/-- `ALTERNATE_URI_TYPE` : type → shorthand (the table generated from the source, `lean/NdnGen/C09.lean`) -/
 def altUriOfType (t : Nat) : Option Str :=
-  if t = 50 then some "seg".toList else if t = 52 then some "off".toList
-  else if t = 54 then some "v".toList else if t = 56 then some "t".toList
-  else if t = 58 then some "seq".toList else none
+  (Gen.C09.altUriType.find? fun p => p.1 == t).map (·.2)
 
-/-- `ALTERNATE_URI_STR` : shorthand → type -/
+/-- `ALTERNATE_URI_STR` : shorthand → type (the table generated from the source) -/
 def altTypeOfStr (s : Str) : Option Nat :=
-  if s = "seg".toList then some 50 else if s = "off".toList then some 52
-  else if s = "v".toList then some 54 else if s = "t".toList then some 56
-  else if s = "seq".toList then some 58 else none
+  (Gen.C09.altUriStr.find? fun p => p.1 == s).map (·.2)
 
 /-- `Component.from_bytes(val, typ)` for `typ ≥ 0` (a negative `typ` is rejected the same way). -/
 def fromBytes (v : Bytes) (typ : Nat) : Except PyErr Bytes :=
